@@ -71,7 +71,11 @@ func TestVerifC20(t *testing.T) {
 	}
 	defer func() { n.stop() }()
 	cooloff := []string{"0", "2ms"}[seed%2]
-	cfg := fmt.Sprintf("SessionExpiration = \"30m0s\"\nPostMessageCooloff = %q\n[IRC]\n  [[IRC.Operators]]\n    Name = \"op\"\n    Password = \"oppass\"\n[TrustedBridges]\n  \"1234567890abcdef1234567890abcdef\" = \"bridge-one\"\n", cooloff)
+	// with a tiny expiration every session counts as idle for the sweep (nothing applies the
+	// deletions it proposes here), so the sweep's handling of expired sessions overlaps with
+	// entries of those very sessions being applied
+	expiration := []string{"30m0s", "1ms"}[(seed/2)%2]
+	cfg := fmt.Sprintf("SessionExpiration = %q\nPostMessageCooloff = %q\n[IRC]\n  [[IRC.Operators]]\n    Name = \"op\"\n    Password = \"oppass\"\n[TrustedBridges]\n  \"1234567890abcdef1234567890abcdef\" = \"bridge-one\"\n", expiration, cooloff)
 	if code, b := c.postConfig(n.password, cfg, "0"); code != 200 {
 		rep.Broken(fmt.Sprintf("config post: %d %s", code, b))
 		return
